@@ -286,7 +286,7 @@ def run_case(case):
                 kw['single_end'] = True
             fr, tr = F.make_fragment(gen, r, rid, case['i'] + 1, method, r.randint(1, 3) if fam is None else fam['cell'], name,
                                      pos if fam is None else pos + r.randint(0, 5), reverse, F.rand_dna(r, 3) if fam is None else fam['umi'],
-                                     r.randint(60, 300), chic_trimmed=trimmed, mismatches=r.choice([0, 0, 1]), **kw)
+                                     r.randint(60, 300), chic_trimmed=trimmed, mismatches=r.choice([0, 0, 1]), r1_len=r.choice([25, 40, 40, 55]), **kw)
             if fr is None:
                 continue
             if kind == 'mate_unmapped' and len(fr) == 2:
@@ -419,24 +419,23 @@ def run_case(case):
         import singlecellmultiomics.molecule as smm
         fargs_r = dict(fargs, assignment_radius=5)
         sites_by_id = {}
+        groups_ = {}
         for label, rset in (('original', recs), ('mirror', mrecs)):
+            # the real grouping code: the molecule iterator (default pooling) fed with the read pairs in coordinate order
             frr = build_fragments(header, rset, fclass, fargs_r, qf)
-            order = sorted(frr, key=lambda i: (frr[i].get_R1().reference_id, frr[i].get_span()[1] if frr[i].get_span()[1] is not None else -1, i))
-            mols = []
-            for i in order:
-                fr_ = frr[i]
-                if not fr_.is_valid():
-                    continue
-                for m_ in mols:
-                    if m_.add_fragment(fr_):
-                        break
-                else:
-                    mols.append(smm.CHICMolecule(fr_))
+            order = sorted(frr, key=lambda i: (frr[i].get_R1().reference_id, min(x.reference_start for x in frr[i].reads if x is not None and x.reference_start is not None), i))
+            pairs_ = [tuple(frr[i].reads) for i in order]
+            with contextlib.redirect_stdout(io.StringIO()):
+                mols = list(smm.MoleculeIterator(pairs_, molecule_class=smm.CHICMolecule, fragment_class=fclass, fragment_class_args=dict(fargs_r), yield_invalid=True))
+            groups_[label] = set()
             for m_ in mols:
                 m_.write_tags()
-            for i in order:
-                r1_ = frr[i].get_R1()
-                sites_by_id.setdefault(i, {})[label] = r1_.get_tag('DS') if r1_.has_tag('DS') else None
+                ids_ = frozenset(F.id_from_name([x for x in fr_ if x is not None][0].query_name) for fr_ in m_)
+                groups_[label].add(ids_)
+                for fr_ in m_:
+                    r1_ = fr_.get_R1()
+                    if r1_ is not None:
+                        sites_by_id.setdefault(F.id_from_name(r1_.query_name), {})[label] = r1_.get_tag('DS') if r1_.has_tag('DS') else None
         # grouping with a radius is a greedy chain: which fragments end up together is only well defined when everything that can chain with the
         # family (same cell, UMI, strand and contig, linked by steps of <= 5) lies within 5 bases - a longer chain is cut at a place that depends
         # on the direction it is walked in, and the two orientations then legitimately differ
@@ -463,6 +462,14 @@ def run_case(case):
                 acc.count('molecule:family_in_a_chain_longer_than_the_radius_skipped')
                 continue
             acc.count('molecule:family_sites_compared')
+            g_o = next((g for g in groups_['original'] if i in g), None)
+            g_m = next((g for g in groups_['mirror'] if i in g), None)
+            if g_o != g_m:
+                acc.violate('mirror-deduplication-differs:molecule-with-radius',
+                            f'scCHIC fragment {i} ({"reverse" if truths[i]["reverse"] else "forward"} strand) of a family of copies within 5 bp, assignment radius 5: grouped with '
+                            f'{sorted(g_o or [])} on the original strand but with {sorted(g_m or [])} on the mirrored reference ({cfg})',
+                            {'config': cfg, 'family': [(j, truths[j]['site'], truths[j]['reverse'], truths[j]['r1']) for j, f2 in family_of.items() if f2 == fid]})
+                continue
             L_ = lens[truths[i]['contig']]
             if d_['mirror'] != L_ - 1 - d_['original']:
                 acc.violate('mirror-site-asymmetric:chic:molecule-with-radius',
